@@ -182,26 +182,7 @@ def place(digest, where):
     return filler + filler
 
 
-@obligation(tier="quick", parts=lambda tier: 4 if tier == "thorough" else 3, timeout=240,
-            part_names=["1 X.509 element", "2 X.509 elements", "3 X.509 elements", "4 X.509 elements"],
-            bounds="X.509 chain depth 1..3 (T: 4) (partition) below the root of trust; per X.509 element: not-before / not-after and the current "
-                   "time symbolic integers, issuer-signature verdict symbolic; key of the certificate certifying the attestation key "
-                   "P-256 or not; attestation key and quote: signature verdict symbolic, binding hash placed as prefix / in the second "
-                   "half / nowhere (symbolic); verdict for any other triple symbolic",
-            examples=[(0, dict(now=5, nb0=0, na0=9, nb1=0, na1=9, nb2=0, na2=9, nb3=0, na3=9, v0=True, v1=True, v2=True, v3=True, p256=True, vak=True, vq=True,
-                               wak=0, wq=0, w=False)),
-                      (2, dict(now=5, nb0=0, na0=9, nb1=6, na1=9, nb2=0, na2=9, nb3=0, na3=9, v0=True, v1=True, v2=True, v3=True, p256=True, vak=True, vq=True,
-                               wak=0, wq=0, w=True)),
-                      (1, dict(now=5, nb0=0, na0=9, nb1=0, na1=9, nb2=0, na2=9, nb3=0, na3=9, v0=True, v1=True, v2=True, v3=True, p256=True, vak=True, vq=True,
-                               wak=1, wq=0, w=True)),
-                      (1, dict(now=5, nb0=0, na0=5, nb1=5, na1=9, nb2=0, na2=9, nb3=0, na3=9, v0=True, v1=True, v2=True, v3=True, p256=False, vak=True, vq=True,
-                               wak=0, wq=0, w=True))])
-def chain(now: int, nb0: int, na0: int, nb1: int, na1: int, nb2: int, na2: int, nb3: int, na3: int, v0: bool, v1: bool, v2: bool,
-          v3: bool, p256: bool, vak: bool, vq: bool, wak: int, wq: int, w: bool, now2: int = 5, vtop2: bool = True) -> bool:
-    """
-    pre: 0 <= wak <= 2 and 0 <= wq <= 2
-    post: _
-    """
+def _chain(now, nb0, na0, nb1, na1, nb2, na2, nb3, na3, v0, v1, v2, v3, p256, vak, vq, wak, wq, w, now2=5, vtop2=True, second=False):
     depth = part() + 1
     nbs, nas, vs = [nb0, nb1, nb2, nb3][:depth], [na0, na1, na2, na3][:depth], [v0, v1, v2, v3][:depth]
     world = World()
@@ -269,6 +250,8 @@ def chain(now: int, nb0: int, na0: int, nb1: int, na1: int, nb2: int, na2: int, 
                 and bytes(val["sgx_quote"].report_body.mrenclave) == q_msg[QUOTE_HEADER + 64:QUOTE_HEADER + 96]
         if not judge(got, now, vs):
             return False
+        if not second:
+            return True
         # the SAME certificate object validated again later (another time) and against a root whose signature on the topmost
         # certificate has another verdict: everything is judged afresh
         world.now = now2
@@ -286,3 +269,47 @@ def chain(now: int, nb0: int, na0: int, nb1: int, na1: int, nb2: int, na2: int, 
         return False
     finally:
         uninstall(saved)
+
+
+@obligation(tier="quick", parts=lambda tier: 4 if tier == "thorough" else 3, timeout=240,
+            part_names=["1 X.509 element", "2 X.509 elements", "3 X.509 elements", "4 X.509 elements"],
+            bounds="X.509 chain depth 1..3 (T: 4) (partition) below the root of trust; per X.509 element: not-before / not-after and the current "
+                   "time symbolic integers, issuer-signature verdict symbolic; key of the certificate certifying the attestation key "
+                   "P-256 or not; attestation key and quote: signature verdict symbolic, binding hash placed as prefix / in the second "
+                   "half / nowhere (symbolic); verdict for any other triple symbolic",
+            examples=[(0, dict(now=5, nb0=0, na0=9, nb1=0, na1=9, nb2=0, na2=9, nb3=0, na3=9, v0=True, v1=True, v2=True, v3=True, p256=True, vak=True, vq=True,
+                               wak=0, wq=0, w=False)),
+                      (2, dict(now=5, nb0=0, na0=9, nb1=6, na1=9, nb2=0, na2=9, nb3=0, na3=9, v0=True, v1=True, v2=True, v3=True, p256=True, vak=True, vq=True,
+                               wak=0, wq=0, w=True)),
+                      (1, dict(now=5, nb0=0, na0=9, nb1=0, na1=9, nb2=0, na2=9, nb3=0, na3=9, v0=True, v1=True, v2=True, v3=True, p256=True, vak=True, vq=True,
+                               wak=1, wq=0, w=True)),
+                      (1, dict(now=5, nb0=0, na0=5, nb1=5, na1=9, nb2=0, na2=9, nb3=0, na3=9, v0=True, v1=True, v2=True, v3=True, p256=False, vak=True, vq=True,
+                               wak=0, wq=0, w=True))])
+def chain(now: int, nb0: int, na0: int, nb1: int, na1: int, nb2: int, na2: int, nb3: int, na3: int, v0: bool, v1: bool, v2: bool,
+          v3: bool, p256: bool, vak: bool, vq: bool, wak: int, wq: int, w: bool) -> bool:
+    """
+    pre: 0 <= wak <= 2 and 0 <= wq <= 2
+    post: _
+    """
+    return _chain(now, nb0, na0, nb1, na1, nb2, na2, nb3, na3, v0, v1, v2, v3, p256, vak, vq, wak, wq, w)
+
+
+@obligation(tier="quick", parts=lambda tier: 4 if tier == "thorough" else 3, timeout=240,
+            part_names=["1 X.509 element", "2 X.509 elements", "3 X.509 elements", "4 X.509 elements"],
+            bounds="the same certificate object validated twice: current time of the first and of the second validation, validity window of "
+                   "the topmost certificate, verdict of its signature under the root in the first and in the second validation, and the "
+                   "'other triple' verdict are symbolic; everything else valid",
+            examples=[(0, dict(now=5, now2=50, nb=0, na=9, vtop=True, vtop2=True, w=False)),
+                      (2, dict(now=5, now2=6, nb=0, na=9, vtop=True, vtop2=False, w=True)),
+                      (1, dict(now=50, now2=5, nb=0, na=9, vtop=False, vtop2=True, w=False))])
+def revalidation(now: int, now2: int, nb: int, na: int, vtop: bool, vtop2: bool, w: bool) -> bool:
+    """
+    post: _
+    """
+    depth = part() + 1
+    nbs = [-10 ** 9] * 4
+    nas = [10 ** 9] * 4
+    vs = [True] * 4
+    nbs[depth - 1], nas[depth - 1], vs[depth - 1] = nb, na, vtop
+    return _chain(now, nbs[0], nas[0], nbs[1], nas[1], nbs[2], nas[2], nbs[3], nas[3], vs[0], vs[1], vs[2], vs[3],
+                  True, True, True, 0, 0, w, now2, vtop2, True)
